@@ -15,7 +15,7 @@ CHECKS = {
     'C04': dict(text='Both checkers are proved EQUAL to the exact range / divisibility predicate for all values of each (rep, N/D) '
                      'instance; is_conversion_lossy is their disjunction; floating reps: the two implications the property states.',
                 note=TRUST + "Euclid's lemma (gcd(N,D)=1, checked per instance) restates 'D does not divide x*N' as 'D does not divide x'. "
-                             'One open known finding (KF-C04-1).', ref='5 (C04)', tech=H),
+                             'would_product_overflow for signed 32/64-bit T is proved for all x and all magnitudes by a lemma instance (Lean). Open known findings KF-C04-1, KF-C04-2.', ref='5 (C04), 10.1', tech=H + '; lemma-instance obligation for the signed overflow checker'),
     'C05': dict(text='Per (source rep, target rep, N/D): not-lossy<T> implies exact result and every cast/scaling step defined (UB:* incl. float->int range); '
                      'the checker itself is UB-free; overflow<T> only when a step really leaves its range. Floating sources: value-preserving cast of the '
                      'computed product, with the fp scaling step under its purity contract (companion obligation proves NaN->NaN).',
@@ -23,15 +23,15 @@ CHECKS = {
                 tech=H + '; callee replaced by purity contract for the fp scaling step'),
     'C08': dict(text='Mixed-unit == != < <= > >= + - % and C++20 <=> equal the exact comparison / sum / difference / remainder of value*k in wide arithmetic '
                      'under the property\'s no-overflow precondition; floating reps: bit-exact relational contract with scaling and same-unit operator as callee contracts.',
-                note=TRUST + 'floating "few ulp" distance to the exact rational is not decided.', ref='5 (C08)', tech=H),
+                note=TRUST + 'floating "few ulp" distance to the exact rational is not decided; mixed-width % is a structural obligation (the remainder operator uninterpreted on both sides).', ref='5 (C08), 10.1', tech=H + '; structural obligations for mixed-width %'),
     'C09': dict(text='Point conversions equal the exact affine map (independent rational table) for bounded inputs; point-point, point+-quantity, comparisons by '
                      'absolute position; the unbounded letter of the property at the F->mK int32 call site (known finding KF-C09-1).',
                 note=TRUST + 'inputs bounded per obligation (stated); compile-time rejections N/A; floating reps not covered.', ref='5 (C09)', tech=H),
     'C10': dict(text='Relational contract: r_i(x) == c_i + m_i*x for all x in range, m_i >= 1, c_i >= 0, cross-consistency of (m_i, c_i) with the independent unit '
-                     'sizes and origins, lowest origin maps to 0.', note=TRUST + 'type identity under permutation N/A.', ref='5 (C10)', tech=H),
+                     'sizes and origins, lowest origin maps to 0 (unit lists of 2-4 units incl. origins of different granularity).', note=TRUST + 'type identity under permutation / repetition is not expressible as a contract: checked per unit set by supporting static probes (not counted).', ref='5 (C10), 10.5', tech=H + '; static_assert probes for the type-level clause'),
     'C13': dict(text='Same-unit + - % unary += -= *= /= scalar * / and comparisons equal the raw operator on the promoted operands for all values where the raw '
                      'expression is defined; in()/data_in()/default construction; floating reps bit for bit.',
-                note=TRUST + 'layout/triviality/result types are compile-time facts, not decided. One open known finding (KF-C13-1, -0.0 through QuantityPoint::in).',
+                note=TRUST + 'layout/triviality/default construction/result types are compile-time facts: supporting static probes (not counted). Floating scalar * / are structural obligations. One open known finding (KF-C13-1, -0.0 through QuantityPoint::in).',
                 ref='5 (C13)', tech=H),
     'C06': dict(text='Every permitted implicit conversion of the grid is an exact multiplication by k whenever x*k fits, and is exact and UB-free with NO precondition for |x| <= 2147; '
                      'can_scale_without_overflow equals (v*k <= max) for all v; OVERFLOW_THRESHOLD == 2147.',
@@ -53,25 +53,25 @@ CHECKS = {
                 tech='CBMC function + loop contracts (goto-instrument --dfcc, and ll2c-generated VCs); nonlinear arithmetic as uninterpreted functions + instances of Lean-checked lemmas'),
     'C14': dict(text='Quantity * Quantity, / (unblock_int_div), int_pow<2>, int_pow<3>, same-unit quotient collapsing to a raw number equal the raw operator on the stored values '
                      'whenever the raw expression is defined (overflow predicates of the abstract machine), for all values; sqrt: std::sqrt called once on the stored value (trusted stub).',
-                note=TRUST + 'result unit as a type, integer-division guard and as_raw_number rejections are compile-time: not claimed. Floating * and / bit-exactness only in the thorough tier.',
-                ref='5 (C14)', tech=H),
+                note=TRUST + 'Floating *, /, 1/q are structural obligations over all bit patterns (operator uninterpreted on both sides). Result units, collapse to a raw number and as_raw_number overload resolution are supporting static probes (not counted); rejections themselves are not decided. Open known finding KF-C14-1.',
+                ref='5 (C14), 10.1', tech=H + '; structural obligations for the floating operators; static_assert probes for result types'),
     'C15': dict(text='floor_/ceil_/round_in and _as: integral result bracketing the library\'s own conversion of q (scaling step under its purity contract), all finite values below 2^51 / 2^22; '
                      'inverse_in/as == trunc(10^6/x) for all x != 0 and inverse(inverse(n)) == n for 1..1000; sin/cos/tan/arcsin wrappers call the std function exactly once on the value '
                      'in radians (trusted stubs); min/max/clamp/abs in the common unit.',
-                note=TRUST + 'libm functions are assumed; compile-time refusal of small-K inversions not claimed; the float->int inverse obligation is an exhaustive small family (bounded, not counted).',
+                note=TRUST + 'libm functions are assumed (abs on floating reps is compared with std::abs bit for bit); compile-time refusal of small-K inversions not claimed; the float->int inverse is a structural obligation over all bit patterns plus a bounded family.',
                 ref='5 (C15)', tech=H + '; callee purity contracts; libm as trusted stubs'),
     'C16': dict(text='Multiplying/dividing numbers and quantities by a constant keeps the stored number bit for bit for every value; C.as<T>/in<T>/implicit conversion return the independently '
-                     'computed exact value; can_store_value_in on boundary instances.', note=TRUST + '"available exactly when representable" only on its positive instances and listed boundaries.',
-                ref='5 (C16)', tech=H),
+                     'computed exact value; can_store_value_in on boundary instances.', note=TRUST + '"available exactly when representable" only on its positive instances and listed boundaries (max, max+1, primes above max, subnormal and out-of-range ratios for floating T); result units are supporting static probes.',
+                ref='5 (C16)', tech=H + '; static_assert probes for availability and result units'),
     'C17': dict(text='as_quantity(d) has d\'s count in seconds*Period, Quantity -> duration -> count is the identity, as_chrono_duration keeps value and Period, for every bit pattern; mixed '
                      'duration/quantity comparisons, sums and differences equal the result of the lowered std::chrono operator and the exact order, whenever chrono\'s own products fit.',
-                note=TRUST + "libstdc++'s <chrono> is lowered by the same pipeline. Acceptance 'exactly when the quantity would be' is compile-time: not claimed.", ref='5 (C17)', tech=H),
+                note=TRUST + "libstdc++'s <chrono> is lowered by the same pipeline (also for operands of different reps). Acceptance 'exactly when the quantity would be', cv / value category of the duration: supporting static probes (not counted).", ref='5 (C17)', tech=H + '; static_assert probes for acceptance'),
     'C18': dict(text='string_size_unsigned: loop contract (invariant x*10^(d-1) <= x0 < (x+1)*10^(d-1), decreases x) proving 10^(r-1) <= x < 10^r for all 2^64 inputs (step split into the 20 '
                      'digit-count cases); string_size against that contract; StringConstant::join on run-time characters (in-bounds, joined text, NUL, size); label constants of grid units.',
-                note=TRUST + 'operator<< (iostreams) not decided; label text only for the listed units.', ref='5 (C18)',
+                note=TRUST + 'operator<< is decided up to the std::ostream inserters (trusted recorder stubs: which overload, which value); label text for the listed units and grammar probes. Open known finding KF-C18-1.', ref='5 (C18)',
                 tech='loop-contract VCs generated by ll2c (base/step/variant) decided by cvc5 int-blast / z3 / SAT; constant-trip-count loops fully unwound with unwinding assertions'),
     'C19': dict(text='For every value (all bit patterns for floating reps): comparisons with ZERO equal comparisons with 0 in both orders, q+-ZERO == q, '
-                     'Quantity(ZERO) holds 0, T(ZERO) == 0, duration(ZERO).count() == 0.', note=TRUST + 'point rejection N/A.', ref='5 (C19)', tech=H),
+                     'Quantity(ZERO) holds 0, T(ZERO) == 0, duration(ZERO).count() == 0.', note=TRUST + 'conversions to every arithmetic type and to chrono durations (class-type reps included) and the point rejection are supporting static probes.', ref='5 (C19)', tech=H + '; static_assert probes'),
 }
 NA = {
     'C01': 'Ill-formed programs have no function to put under contract; the deciding agent is the C++ type checker, not a program verifier.',
